@@ -114,6 +114,10 @@ def owed (cfg : Cfg) (c : Call) : Owed :=
   | .version => .lines 1
   | .quit => .nothing
   | .raw _ tok => if tok = [] then .lines 1 else .segment tok
+  | .stats _ => .fetch .stats
+  | .cacheMemlimit _ => .fetch (.values false)   -- read by `_fetch_cmd`'s loop: `OK`, or an error line
+  | .shutdown _ => .lines 1                      -- an error line when shutdown is not enabled; a server that
+                                                 -- does shut down sends nothing and closes (`FaultFramed`)
 
 /-- the byte stream `s` consists of exactly the owed units -/
 def Owed.Matches : Owed → Bytes → Prop
